@@ -13,7 +13,7 @@ import itertools, os, random, re
 from . import common as C, proggen as P, frontend as F, sexp
 
 PROP = "C18"
-MODULES = ["RuschmProofs.C18Bracket", "RuschmProofs.C18", "RuschmProofs.C18More"]
+MODULES = ["RuschmProofs.C18Bracket", "RuschmProofs.C18", "RuschmProofs.C18More", "RuschmProofs.C18Full"]
 ALPHA = list("()\";|\\#a ") + ["\n", "\r"]
 
 TOKEN = re.compile(r"""#\\.[A-Za-z0-9]*|"(?:[^"\\]|\\.)*"|\|[^|]*\||;[^\n]*|#\(|[()']|[^\s()";|']+""", re.S)
